@@ -993,7 +993,17 @@ def np_asarray(I, a, k):
         r = I.st.alloc('clist', [np_asarray(I, [y], {}) if isinstance(y, tuple) or Mo.is_list(y) else y for y in x], nd=True)
         return _as_dtype(I, r, dt)
     if numkind(x) is not None:
-        return Mo.cast_scalar(I, x, dt)         # 0-d array: treated as the scalar
+        r = Mo.cast_scalar(I, x, dt)            # 0-d array: the scalar, marked so that .shape / .ndim / .size exist
+        from .values import SV0d, F0d, I0d
+        if isinstance(r, SV):
+            return SV0d(r.t, r.kind)
+        if isinstance(r, bool):
+            return r
+        if isinstance(r, float):
+            return F0d(r)
+        if isinstance(r, int):
+            return I0d(r)
+        return r
     raise Unsupported('asarray(%r)' % (x,))
 
 
